@@ -99,6 +99,15 @@ namespace Dune {
      *  Returns a read-only (constant) reference to the data of the
      *  least recently used entry.
      */
+    const_reference back () const
+    {
+      return _data.back().second;
+    }
+
+    /**
+     *  \deprecated Former signature of the read-only back(), kept for
+     *  compatibility; the argument is ignored.
+     */
     const_reference back ([[maybe_unused]] int i) const
     {
       return _data.back().second;
